@@ -427,7 +427,9 @@ func runC19(c *Ctx) {
 				if len(Find(m, dirtyStore)) == 0 {
 					c.OK("R19.3", construct, fpos(m), "does not set dirty")
 				} else {
-					before, w1 := p.Reach(Entry(m), dirtyStore, CutSpec{Nodes: freshStore})
+					// (an execution on which the view already was dirty keeps the private map it has)
+					alreadyDirty := FactEdge("true(*param#0.dirty)")
+					before, w1 := p.Reach(Entry(m), dirtyStore, CutSpec{Nodes: freshStore, Edges: alreadyDirty})
 					after, w2 := p.Reach(After(m, dirtyStore), OrInstr(IsReturn, MapWriteOnField("tempKV", "m")), CutSpec{Nodes: freshStore})
 
 					if before && after {
@@ -437,6 +439,65 @@ func runC19(c *Ctx) {
 					}
 				}
 			}
+		}
+	}
+
+	// the view handed to a Do callback starts clean: a fresh literal, or — a recycled wrapper — one whose dirty flag
+	// was reset (or the whole struct overwritten) since it was obtained
+	if f := p.Method(pkgKV, "KV", "Do"); c.NeedFunc("R19.3", f, "KV.Do") {
+		n := 0
+
+		for _, in := range Find(f, func(in ssa.Instruction) bool {
+			call, ok := in.(*ssa.Call)
+			if !ok || call.Call.IsInvoke() || StaticOrClosureCallee(call) != nil {
+				return false
+			}
+
+			_, isParam := call.Call.Value.(*ssa.Parameter)
+
+			return isParam
+		}) {
+			call := in.(*ssa.Call)
+			if len(call.Call.Args) != 1 {
+				continue
+			}
+
+			n++
+
+			arg := call.Call.Args[0]
+			if mi, ok := arg.(*ssa.MakeInterface); ok {
+				arg = mi.X
+			}
+
+			if al, ok := arg.(*ssa.Alloc); ok && al.Comment == "complit" {
+				_, sets := allocFields(al)["dirty"]
+				c.Check(!sets, "R19.3", FuncName(f)+" :: the view handed to the callback starts with dirty unset", call.Pos(), "fresh literal", "the literal sets dirty")
+
+				continue
+			}
+
+			view := arg
+			reset := func(i ssa.Instruction) bool {
+				st, ok := i.(*ssa.Store)
+				if !ok {
+					return false
+				}
+
+				// whole struct overwritten, or dirty = false
+				if st.Addr == view {
+					return true
+				}
+
+				return StoreToField("tempKV", "dirty")(i) && p.Desc(st.Val) == "const:false"
+			}
+
+			bad, w := p.Reach(Entry(f), func(i ssa.Instruction) bool { return i == ssa.Instruction(call) }, CutSpec{Nodes: reset})
+			c.Check(!bad, "R19.3", FuncName(f)+" :: the view handed to the callback starts with dirty unset", call.Pos(), "recycled wrapper reset before use",
+				"a wrapper that is not a fresh literal reaches the callback without its dirty flag having been cleared — dirty means 'the map is private', so the first write goes into the shared map: "+strings.Join(w, " "))
+		}
+
+		if n == 0 {
+			c.Unknown("R19.3", FuncName(f)+" :: the view handed to the callback starts with dirty unset", fpos(f), "anchor-unresolved: no call of the callback parameter found")
 		}
 	}
 
